@@ -185,6 +185,22 @@ def r5(cx):
     ix = sites(cx, b, "lsm::cleanup_stale_versioned_index")
     vc = sites(cx, b, "VLog::cleanup_obsolete_files")
     dom(cx, b, ix, vc, "stale index entries are removed before value-log files")
+    # the index clean-up is complete before the files go: its scan of the index is exhaustive (no cap, no early break) and
+    # every collected key is deleted
+    sb = f.body("lsm::cleanup_stale_versioned_index")
+    rng = sites(cx, sb, ["BPlusTree::range", "bplustree::tree::BPlusTree::range"])
+    nx = [c for c in sb.calls if c.bb in sb.live and c.primary.endswith("Iterator>::next") and sb.in_cycle(c.bb)]
+    scan = [c for c in nx if any(x in rng for x in origin_of_operand(sb, c.args[0], through_calls="all").calls)]
+    cx.floor("index scan loops in cleanup_stale_versioned_index", len(scan), 1)
+    for c in scan:
+        exhaustive_loop(cx, sb, c, "the scan for index entries that point into deleted value-log files visits the whole index", "stale-index-scan-capped")
+    dl = [c for c in sb.calls if c.bb in sb.live and c.names & {"BPlusTree::delete", "bplustree::tree::BPlusTree::delete"}]
+    cx.floor("index deletions in cleanup_stale_versioned_index", len(dl), 1)
+    for c in nx:
+        if c in scan:
+            continue
+        if any(d.bb in loop_of(sb, c.bb) for d in dl) or any(loop_of(sb, d.bb) & loop_of(sb, c.bb) for d in dl):
+            exhaustive_loop(cx, sb, c, "every collected stale key is deleted from the index", "stale-index-delete-partial")
     for a, c in zip(ix, vc):
         oa, oc = origin_of_operand(b, a.args[1]), origin_of_operand(b, c.args[1])
         cx.check(oa.params == oc.params and not oa.ops and not oc.ops, "both steps use the same bound", "cleanup-bound-mismatch", c.where())
